@@ -794,6 +794,10 @@ func (cl *compiler) newLabel() *label {
 
 func (cl *compiler) bindLabel(l *label) {
 	l.targetPos = len(cl.code)
+	// The next instruction is a jump target: whatever was emitted last,
+	// the execution can reach this position, so lastOp-based peepholes
+	// must not look through the label.
+	cl.lastOp = opInvalid
 }
 
 func (cl *compiler) emit(op opcode) {
